@@ -1,10 +1,10 @@
 (* C20 -- Substitution matrices are loaded exactly and are symmetric.
    Only statements here; proofs are in proof/C20_Finite.v (complete enumeration over the regenerated files),
-   proof/C20_Render.v (text layer on rendered files) and proof/C20_Lemmas.v. *)
+   proof/C20_Render.v (text layer on rendered files), proof/C20_Num.v (number literals) and proof/C20_Lemmas.v. *)
 From Coq Require Import List Bool ZArith.
 From Coq.Strings Require Import Byte.
 Import ListNotations.
-From SV Require Import Text G_submat_index C20_Model C20_Finite C20_Render C20_Lemmas.
+From SV Require Import Text G_submat_index C20_Model C20_Finite C20_Render C20_Num C20_Lemmas.
 
 (* every bundled file is inside the domain, parses, and its name is its own upper-case form *)
 Theorem C20_bundled_wf : forall name raw, In (name, raw) submat_files ->
@@ -95,6 +95,54 @@ Theorem C20_render_positional : forall f m, afile_ok f = true -> wf_content (ren
 Proof. exact render_positional. Qed.
 Print Assumptions C20_render_positional.
 
+(* numbers: int(str(z)) = z, and the canonical literal of m/10^k (exactly k fraction digits) is read back as (m, k)
+   by the reader that the row selects ('.' in the row <-> float) *)
+Theorem C20_number_round_trip : forall v,
+  parse_num (negb (is_int_num v)) (render_num v) = Some v /\ has_dot (render_num v) = negb (is_int_num v).
+Proof. exact parse_render_num. Qed.
+Print Assumptions C20_number_round_trip.
+
+(* ... so a rendered file whose rows are written with these literals loads as exactly these numbers *)
+Theorem C20_render_cells : forall f m, afile_ok f = true -> wf_content (render f) = true ->
+  parse (render f) = Some m ->
+  forall hs rows, word_lines f = hs :: rows ->
+  forall r vals, row_uniform vals = true -> In (r :: map render_num vals) rows ->
+  forall j c v, nth_error hs j = Some c -> nth_error vals j = Some v -> cell m r c = Some v.
+Proof. exact render_cells. Qed.
+Print Assumptions C20_render_cells.
+
+(* the same three statements for LF, CRLF and CR line ends, with or without a terminator after the last line *)
+Theorem C20_render_with_text_layer : forall e final f, afile_ok f = true ->
+  content_lines (render_with e final f) = map render_aline (filter is_words f) /\
+  map split_ws (content_lines (render_with e final f)) = word_lines f.
+Proof. exact (fun e final f H => conj (content_lines_render_with e final f H) (words_of_rendered_with e final f H)). Qed.
+Print Assumptions C20_render_with_text_layer.
+
+Theorem C20_render_with_positional : forall e final f m, afile_ok f = true ->
+  wf_content (render_with e final f) = true -> parse (render_with e final f) = Some m ->
+  forall hs rows, word_lines f = hs :: rows ->
+  map fst m = map (hd []) rows /\
+  (forall r vs, In (r :: vs) rows ->
+   forall j c tok, nth_error hs j = Some c -> nth_error vs j = Some tok ->
+   exists v, parse_num (existsb has_dot vs) tok = Some v /\ cell m r c = Some v) /\
+  (forall r vals, row_uniform vals = true -> In (r :: map render_num vals) rows ->
+   forall j c v, nth_error hs j = Some c -> nth_error vals j = Some v -> cell m r c = Some v).
+Proof. exact render_with_positional. Qed.
+Print Assumptions C20_render_with_positional.
+
+(* the whole function on names: a bundled name in any spelling gives the parsed bundled file, an unknown name the
+   FileNotFoundError with the list, and a name never ends in ValueError *)
+Theorem C20_submat_name_spec : forall s,
+  (forall nm raw, In (nm, raw) submat_files -> upper s = upper nm ->
+     exists m, submat_name s = OMatrix m /\ parse raw = Some m) /\
+  (~ In (upper s) submat_names -> submat_name s = OFileNotFound (fnf_message s)) /\
+  submat_name s <> OValueError.
+Proof.
+  exact (fun s => conj (fun nm raw H E => submat_bundled nm raw s H E)
+                  (conj (submat_unknown s) (submat_name_no_value_error s))).
+Qed.
+Print Assumptions C20_submat_name_spec.
+
 (* non-vacuity: a user file with a comment, a blank line, CRLF line ends, an integer row and a decimal row *)
 Example C20_witness :
   wf_content (unhex (bs "2320630d0a0d0a2020412020420d0a412020312020322e350d0a42092d3209370d0a"%bs)) = true /\
@@ -115,3 +163,11 @@ Example C20_witness_render :
             AWords [] (bs "A"%bs) [([x09], bs "2"%bs); (bs " "%bs, bs "-1"%bs)] (bs " "%bs);
             AWords [] (bs "B"%bs) [([x09], bs "-1"%bs); (bs " "%bs, bs "3.5"%bs)] []]) = true.
 Proof. exact (conj eq_refl eq_refl). Qed.
+Example C20_witness_numbers :
+  Bstr (render_num (NDec (-5) 2)) = "-0.05"%bs /\ Bstr (render_num (NDec 1250 2)) = "12.50"%bs /\
+  Bstr (render_num (NDec 3 0)) = "3."%bs /\ Bstr (render_num (NInt (-17))) = "-17"%bs /\
+  row_uniform [NDec (-5) 2; NDec 3 0] = true /\
+  wf_content (render_with CRLF false
+     [AWords [] (bs "A"%bs) [(bs " "%bs, bs "B"%bs)] [];
+      AWords [] (bs "A"%bs) [(bs " "%bs, render_num (NDec (-5) 2)); ([x09], render_num (NDec 3 0))] []]) = true.
+Proof. exact (conj eq_refl (conj eq_refl (conj eq_refl (conj eq_refl (conj eq_refl eq_refl))))). Qed.
